@@ -43,13 +43,17 @@ def arr(variant, col, vals):
     return np.array(xs, dtype=float if isinstance(enc(variant, col, 0), float) else int)
 
 
+# the non-column entries of the root tables are vectors: every length occurs as the row count of some derived table
+HV = {"q": np.array([1.5, 2.5]), "r": np.array([9.5]), "u": np.array([1, 2, 3])}
+
+
 def mk_table(spec, variant):
     import xdeps
     data = {}
     for c in spec["order"]:
         data[c] = np.array(list(spec["names"]), dtype="U4") if c == "name" else arr(variant, c, spec["cols"][c])
     for k in spec["sc"]:
-        data[k] = 1.5
+        data[k] = HV[k].copy() if k in HV else 1.5
     return xdeps.Table(data, col_names=list(spec["order"]), index="name")
 
 
@@ -155,6 +159,10 @@ def compare(t, spec, src=None):
     sc = set(t.keys(exclude_columns=True))
     if sc != set(spec["sc"]):
         bad.append(("scalar entries", sorted(sc), sorted(spec["sc"])))
+    for k in sorted(sc & set(HV)):
+        got = t._data[k]
+        if not (isinstance(got, np.ndarray) and got.shape == HV[k].shape and np.array_equal(got, HV[k])):
+            bad.append(("non-column entry carried over changed", k, repr(got), repr(HV[k])))
     if bad:
         return bad
     if list(t._data["name"]) != list(spec["names"]):
